@@ -1302,6 +1302,9 @@ class ReadDataByIdentifierRequest(
         else:
             self.data_identifiers = [data_identifiers]
 
+        if len(self.data_identifiers) < 1:
+            raise ValueError("At least one dataIdentifier is required")
+
         for identifier in self.data_identifiers:
             check_data_identifier(identifier)
 
